@@ -10,7 +10,7 @@ EXPLANATION = ('Exhaustive finite-domain evaluation of the policy helper over ev
                'table; the set of sites where the policy is applied (submission unless Connected, current operation at close unless in '
                'flight, write-completion list, user queue after unacked subscribes were merged, resubmit queue on session loss) with '
                'the rejected half always failed with the offline-policy error; no other site may fail an operation with that error; '
-               'in-flight QoS 1/2 publishes bypass the policy at close.')
+               'in-flight QoS 1/2 publishes bypass the policy at close. Added in round 3: every processed close passes both policy partitions; PUBREL retention does not consult the policy. Added after the mutation sweeps: the offline-queue-policy setter stores its argument.')
 ASSUMPTIONS = ['not decided: the two converses over all histories ("never failed for lack of a connection" / "never sent later")']
 P = 'src/protocol.rs'
 PS = 'protocol::ProtocolState'
@@ -156,3 +156,9 @@ def run(ctx):
     _ns = _sh.builder_setters(ctx, lambda b, m: b == 'MqttClientOptionsBuilder' and m == 'with_offline_queue_policy', 'R-C15-1', 'the configured offline-queue policy is the one in force')
     if ctx.config == 'all':
         ctx.floor(_ns, 1, 'builder setters this property depends on')
+    # ---- added after seed C15-4b: a retained operation leaves its queue only to be sent (shared with C01 / C10)
+    from . import shared as _sh3
+    _n3 = _sh3.import_obligations(ctx, 'C01', lambda o: '|popped-is-returned|' in o['key'] or o['key'].startswith('popped-is-returned|'), 'R-C15-4', 'an operation the policy preserved must still be in a queue until it is handed to the encoder')
+    _n4 = _sh3.import_obligations(ctx, 'C10', lambda o: o['key'].endswith('no-bypass') or '|pop-front|' in o['key'], 'R-C15-4', 'retained operations are consumed only from the front and only when they can be sent')
+    if ctx.config == 'all':
+        ctx.floor(_n3 + _n4, 5, 'queue-consumption obligations shared with C01 and C10')
